@@ -616,9 +616,8 @@ m_tai_is_leap(int64_t t)
 }
 
 static int
-judge_addrs(int h, int ia, int k, int replay)
+judge_addrs_d(int h, int ia, const struct rsdur_s *d, int k, int landk, int delta, int replay)
 {
-	const struct rsdur_s *d = rsdurs + k;
 	struct dt_dt_s a, r;
 	char ta[64], got[96], key[220], cas[64], cmd[256];
 	int64_t taia, want, gi = 0, gtai = 0;
@@ -677,16 +676,188 @@ judge_addrs(int h, int ia, int k, int replay)
 		       (long long)taia, d->n, (long long)want, m_tai_is_leap(want) ? " (an inserted second: 23:59:60)" : "");
 	}
 	if (why) {
+		if (landk >= 0) {
+			/* the family of additions that land -3..+3 s around an inserted second */
+			snprintf(key, sizeof(key), "add-rs-land rep=%s sign=%c leaps-crossed=%s lands=%s: %s", held_name[h], d->n < 0 ? '-' : '+',
+				 nl == 0 ? "none" : nl == 1 ? "one" : "two-or-more", delta < 0 ? "before-the-inserted-second" : delta == 0 ? "on-60" : "after-the-inserted-second", why);
+			snprintf(cas, sizeof(cas), "LAND %d %d %d %d", h, ia, landk, delta);
+		} else {
 		snprintf(key, sizeof(key), "add-rs rep=%s sign=%c %sleaps-crossed=%s start-on-60=%d lands-on-60=%d: %s", held_name[h], d->n < 0 ? '-' : '+',
 			 m_before_first(I[ia].u - I[ia].s60) ? "start=before-first-entry " : want < lm[0].t + lm[0].corr ? "result=before-first-entry " : "",
 			 nleap_name(nl), I[ia].s60, m_tai_is_leap(want), why);
 		snprintf(cas, sizeof(cas), "ADDRS %d %d %d", h, ia, k);
+		}
 		snprintf(cmd, sizeof(cmd), "dadd %s%s%s%s%s%s%s %s", held_ifmt[h] ? "-i '" : "", held_ifmt[h] ? held_ifmt[h] : "", held_ifmt[h] ? "' " : "",
 			 held_ofmt[h] ? "-f '" : "", held_ofmt[h] ? held_ofmt[h] : "", held_ofmt[h] ? "' " : "", ta, d->text);
 		ex_viol(key, (double)llabs(d->n), cas, h == H_DAISY ? NULL : cmd,
 			"%s (%s-held) %s gives '%s' (%s by %lld s); %lld SI seconds on, crossing %d inserted second(s), is TAI count %lld%s",
 			ta, held_name[h], d->text, got, why, (long long)(dec && gtai ? gtai - want : 0), d->n, nl, (long long)want,
 			m_tai_is_leap(want) ? ", an inserted second (23:59:60)" : "");
+		return 1;
+	}
+	return 0;
+}
+
+static int
+judge_addrs(int h, int ia, int k, int replay)
+{
+	return judge_addrs_d(h, ia, rsdurs + k, k, -1, 0, replay);
+}
+
+/* the addition from I[ia] that lands DELTA seconds after the inserted second before entry LANDK */
+static int
+judge_land(int h, int ia, int landk, int delta, int replay)
+{
+	struct rsdur_s d;
+	struct __strpdtdur_st_s st = {0};
+	int64_t taia, n;
+	int bad;
+	if (landk < 1 || landk >= nlm || !m_tai(I[ia], &taia)) {
+		return 0;
+	}
+	n = (lm[landk].t + lm[landk - 1].corr + delta) - taia;
+	if (n == 0 || llabs(n) > 2147483647LL) {
+		return 0;
+	}
+	snprintf(d.text, sizeof(d.text), "%c%lldrs", n < 0 ? '-' : '+', (long long)llabs(n));
+	d.n = n;
+	d.ok = dt_io_strpdtdur(&st, d.text) >= 0 && st.ndurs == 1;
+	if (d.ok) {
+		d.dur = st.durs[0];
+	}
+	__strpdtdur_free(&st);
+	bad = judge_addrs_d(h, ia, &d, 0, landk, delta, replay);
+	return bad;
+}
+
+/* ---- LEAP60: the inserted second itself as input of a zone conversion, and TAI labels read back ----
+ * the offset steps AT the listed instant, so 23:59:60 still carries the old one */
+static int
+judge_leap60(int gps, int k, int binary, int replay)
+{
+	static struct dt_dt_s r;
+	struct dt_dt_s v;
+	zif_t z = gps ? z_gps : z_tai;
+	struct inst_s x = {lm[k].t, 1};
+	char text[64], got[96] = "", exp[64], key[200], cas[64], cmd[256];
+	int64_t want = (lm[k].t - 1) + lm[k - 1].corr + 1 - (gps ? 19 : 0);
+	int rc = 0, bad = 0;
+	EX_CTR(c_trans, "transitions");
+	EX_CTR(c_eval, "evaluations");
+	EX_CTR(c_bind, "cli_binding_replays");
+	EX_CTR(c_skipg, "skipped:GPS offset before the GPS epoch 1980-01-06");
+	EX_CTR(c_skipv, "skipped:the representation has no such value (text not accepted, no name for 23:59:60, or it does not print as itself: C09/C02/C01)");
+
+	if (gps && lm[k].t < 315964800) {
+		++*c_skipg;
+		return 0;
+	}
+	if (!inst_value(H_YMD, x, &v, text, sizeof(text))) {
+		++*c_skipv;
+		return 0;
+	}
+	/* expected text: the civil reading of the TAI (GPS) count */
+	held_text(H_YMD, RD_OF_UNIX(want), (int)(want % 86400), exp, sizeof(exp));
+	snprintf(cas, sizeof(cas), "LEAP60 %d %d %d", gps, k, binary);
+	snprintf(cmd, sizeof(cmd), "dconv --zone %s %s", gps ? "GPS" : "TAI", text);
+	if (binary) {
+		char c2[512];
+		FILE *pp;
+		snprintf(c2, sizeof(c2), "'%s/src/dconv' --zone %s %s 2>/dev/null", ex.tree ? ex.tree : ".", gps ? "GPS" : "TAI", text);
+		if ((pp = popen(c2, "r")) != NULL) {
+			if (fgets(got, sizeof(got), pp)) {
+				got[strcspn(got, "\n")] = ' ';
+			}
+			pclose(pp);
+		}
+		++*c_bind;
+	} else {
+		EX_GUARD_BEGIN(rc);
+		r = dtz_enrichz(v, z);
+		dt_strfdt(got, sizeof(got), "%FT%T", r);
+		EX_GUARD_END;
+		*c_eval += 2;
+	}
+	++*c_trans;
+	ex_outcome(ex_hash(got, strlen(got)));
+	if (replay) {
+		printf("  %s -> '%s'; the inserted second carries the offset before the step: '%s'\n", cmd, got, exp);
+	}
+	if (rc || strcmp(got, exp)) {
+		snprintf(key, sizeof(key), "%soffset of the inserted second 23:59:60 zone=%s: %s", binary ? "binary " : "", gps ? "GPS" : "TAI",
+			 rc ? "does not return" : strcmp(got, exp) > 0 ? "too large" : "too small");
+		ex_viol(key, (double)lm[k].t, cas, cmd, "%s gives '%s'; %s-UTC steps at %s of the next day, the inserted second is '%s' there",
+			cmd, got, gps ? "GPS" : "TAI", "00:00:00", exp);
+		bad++;
+	}
+	return bad;
+}
+
+/* TAI label -> UTC -> TAI label must be the identity (dconv --from-zone TAI --zone TAI X) */
+static int
+judge_tairt(int gps, int64_t tai, int replay)
+{
+	static struct dt_dt_s r;
+	struct dt_dt_s v;
+	zif_t z = gps ? z_gps : z_tai;
+	char text[64], got[96] = "", key[200], cas[64], cmd[256];
+	int rc, isleap;
+	EX_CTR(c_trans, "transitions");
+	EX_CTR(c_eval, "evaluations");
+
+	if (tai < 0 || !held_value(H_YMD, RD_OF_UNIX(tai), (int)(tai % 86400), &v, text, sizeof(text))) {
+		return 0;
+	}
+	EX_GUARD_BEGIN(rc);
+	r = dtz_forgetz(v, z);
+	r = dtz_enrichz(r, z);
+	dt_strfdt(got, sizeof(got), "%FT%T", r);
+	EX_GUARD_END;
+	*c_eval += 3;
+	++*c_trans;
+	ex_outcome(ex_hash(got, strlen(got)));
+	isleap = m_tai_is_leap(tai + (gps ? 19 : 0));
+	snprintf(cmd, sizeof(cmd), "dconv --from-zone %s --zone %s %s", gps ? "GPS" : "TAI", gps ? "GPS" : "TAI", text);
+	if (replay) {
+		printf("  %s -> '%s'\n", cmd, got);
+	}
+	if (rc || strcmp(got, text)) {
+		snprintf(key, sizeof(key), "%s label read back through UTC is not itself (%s)", gps ? "GPS" : "TAI",
+			 rc ? "does not return" : isleap ? "label of an inserted second" : "other label");
+		snprintf(cas, sizeof(cas), "TAIRT %d %lld", gps, (long long)tai);
+		ex_viol(key, (double)tai, cas, cmd, "%s gives '%s'", cmd, got);
+		return 1;
+	}
+	return 0;
+}
+
+/* library only: dt_dtconv(DT_SEXYTAI, value) - Unix seconds must be the table's offset */
+static int
+judge_sexytai(int64_t t, int replay)
+{
+	struct dt_dt_s v, r;
+	char text[64], key[160], cas[64];
+	int want = m_off(t);
+	int64_t got;
+	EX_CTR(c_trans, "transitions");
+	EX_CTR(c_eval, "evaluations");
+
+	if (want < 0 || t > 67090118399LL || !held_value(H_YMD, RD_OF_UNIX(t), (int)(t % 86400), &v, text, sizeof(text))) {
+		return 0;
+	}
+	r = dt_dtconv(DT_SEXYTAI, v);
+	got = (int64_t)r.sexy - t;
+	++*c_eval;
+	++*c_trans;
+	ex_outcome(ex_hash_mix(4242, (uint64_t)got));
+	if (replay) {
+		printf("  dt_dtconv(DT_SEXYTAI, %s) - Unix seconds = %lld; the table says %d\n", text, (long long)got, want);
+	}
+	if (got != want) {
+		snprintf(key, sizeof(key), "dt_dtconv to SEXYTAI %s: offset %s", m_before_first(t) ? "before-first-entry" : t >= 2147483648LL ? "at-or-after-2^31" : "before-2^31",
+			 got < want ? "too small" : "too large");
+		snprintf(cas, sizeof(cas), "SXTAI %lld", (long long)t);
+		ex_viol(key, (double)t, cas, NULL, "dt_dtconv(DT_SEXYTAI, %s) is Unix seconds %+lld; the table says TAI-UTC = %d there", text, (long long)got, want);
 		return 1;
 	}
 	return 0;
@@ -833,6 +1004,19 @@ main(int argc, char *argv[])
 		    a[1] >= 0 && a[1] < nI && a[2] >= 0 && a[2] < NRSN * 2) {
 			return ex_replay_result(judge_addrs(a[0], a[1], a[2], 1), "+Nrs rep=%s", held_name[a[0]]);
 		}
+		if (!strncmp(ex.cas, "LAND ", 5) && sscanf(ex.cas + 5, "%d %d %d %d", a, a + 1, a + 2, a + 3) == 4 && a[0] >= 0 && a[0] < NHELD &&
+		    a[1] >= 0 && a[1] < nI) {
+			return ex_replay_result(judge_land(a[0], a[1], a[2], a[3], 1), "+Nrs landing around an inserted second rep=%s", held_name[a[0]]);
+		}
+		if (!strncmp(ex.cas, "LEAP60 ", 7) && sscanf(ex.cas + 7, "%d %d %d", a, a + 1, a + 2) == 3 && a[1] >= 1 && a[1] < nlm) {
+			return ex_replay_result(judge_leap60(a[0] != 0, a[1], a[2] != 0, 1), "23:59:60 into zone %s", a[0] ? "GPS" : "TAI");
+		}
+		if (!strncmp(ex.cas, "TAIRT ", 6) && sscanf(ex.cas + 6, "%d %lld", a, &t) == 2) {
+			return ex_replay_result(judge_tairt(a[0] != 0, t, 1), "label round trip");
+		}
+		if (!strncmp(ex.cas, "SXTAI ", 6) && sscanf(ex.cas + 6, "%lld", &t) == 1) {
+			return ex_replay_result(judge_sexytai(t, 1), "dt_dtconv to SEXYTAI");
+		}
 		return ex_replay_result(1, "bad case string '%s' (binding runs are replayed by their command line)", ex.cas);
 	}
 
@@ -841,6 +1025,10 @@ main(int argc, char *argv[])
 		"in force (+1 on the inserted second 23:59:60). BIS: leaps_corr[bisection(key)] = model offset for the key's instant (day encodings: "
 		"at 00:00:00 of the day), every bisection call under the watchdog. OFFS: zif_local_time(TAI|GPS, t) - t and the printed result of "
 		"dtz_enrichz (dconv --zone) = model offset (GPS: -19, from 1980-01-06). RS: the text ddiff.c prints for %%rS = tai(B) - tai(A). "
+		"LAND: the additions from every instant of I that land -3..+3 s around every inserted second (so spans crossing none, one, "
+		"two or more insertions with every landing offset), same oracle, own keys. LEAP60: the inserted second 23:59:60 as input of "
+		"--zone TAI|GPS carries the offset in force before the step; a TAI/GPS label read with --from-zone and printed with --zone is itself. "
+		"dt_dtconv(DT_SEXYTAI) - Unix seconds = model offset. "
 		"ADD: the printed result of dt_dtadd with a +Nrs duration (parsed by dt_io_strpdtdur) decodes to tai(start) + N, second 60 only on "
 		"inserted seconds. Before the first entry (1970-01-01..1971-12-31) the first entry's TAI-UTC (10 s) holds, as the tree answers today: "
 		"the list's first line only states the value in force from 1972-01-01 and lists no insertion on 1971-12-31, so crossing the first entry "
@@ -851,7 +1039,7 @@ main(int argc, char *argv[])
 		"4095-12-31T23:59:59 ...): %d instants. BIS: epoch keys = I, every midnight 1970..4095, the int32 extremes; ymd/ymcw/day-count keys = "
 		"every day 1970-01-01..4095-12-31 and the uint32 extremes. OFFS: I, every midnight 1970..4095, 2^31+-2, 2^32+-2, 2^33 x {TAI,GPS} x "
 		"{zif_local_time, dconv path}. RS: all %d ordered pairs of I x %d held representations (%s). ADD: I x +-{1,2,3,60,86400,86401,10^7,10^9} rs, and +-1.5*10^9 rs from the instants before the first entry, "
-		"x the same representations", nI, nI * nI, nrep, ex.thorough ? "ymd ymcw daisy epoch ywd yd" : "ymd ymcw daisy epoch");
+		"x the same representations; LAND: I x 27 inserted seconds x 7 landing offsets x the same representations; LEAP60: 27 inserted seconds x {TAI,GPS} x {library, dconv binary}, label round trips 27 x 7 x 2", nI, nI * nI, nrep, ex.thorough ? "ymd ymcw daisy epoch ywd yd" : "ymd ymcw daisy epoch");
 	ex_meta("binding", "dconv --zone TAI|GPS, ddiff REF -f %%rS and dadd +Nrs binaries of the same build on the instant set from stdin, "
 		"byte-compared with the library-level observation");
 
@@ -900,6 +1088,7 @@ main(int argc, char *argv[])
 			{
 				judge_offs(0, t, 0);
 				judge_offs(1, t, 0);
+				judge_sexytai(t, 0);
 			}
 		}
 		++*c_traces;
@@ -915,6 +1104,9 @@ main(int argc, char *argv[])
 			for (int i = 0; i < nI; i++) {
 				if (!I[i].s60) {
 					judge_offs(gps, I[i].u, 0);
+					if (!gps) {
+						judge_sexytai(I[i].u, 0);
+					}
 				}
 			}
 			for (size_t k = 0; k < sizeof(seams) / sizeof(*seams); k++) {
@@ -923,6 +1115,40 @@ main(int argc, char *argv[])
 		}
 		++*c_traces;
 		ex_sample("OFFS: %d instants of I and 11 seam instants x {TAI,GPS}", nI);
+	}
+	/* LEAP60 / label round trips: slice = entry */
+	for (int k = 1; k < nlm; k++, slice++) {
+		if (!ex_mine(slice) || ex_expired()) {
+			continue;
+		}
+		for (int gps = 0; gps < 2; gps++) {
+			judge_leap60(gps, k, 0, 0);
+			if (ex.thorough || k >= nlm - 3) {
+				judge_leap60(gps, k, 1, 0);
+			}
+			/* labels around the inserted second's own label, and around the old and new offsets */
+			for (int d = -3; d <= 3; d++) {
+				judge_tairt(gps, lm[k].t + lm[k - 1].corr - (gps ? 19 : 0) + d, 0);
+			}
+		}
+		++*c_traces;
+	}
+	/* LAND: every start of I x every inserted second x landing offsets -3..+3; slice = (rep, start) */
+	for (int r = 0; r < nrep; r++) {
+		for (int ia = 0; ia < nI; ia++, slice++) {
+			if (!ex_mine(slice) || ex_expired()) {
+				continue;
+			}
+			if (rs_reps[r] == H_SEXY) {
+				continue;	/* epoch-held values are not leap aware at all (recorded); nothing to learn here */
+			}
+			for (int k = 1; k < nlm; k++) {
+				for (int d = -3; d <= 3; d++) {
+					judge_land(rs_reps[r], ia, k, d, 0);
+				}
+			}
+			++*c_traces;
+		}
 	}
 	/* RS: slice = (rep, first instant) */
 	for (int r = 0; r < nrep; r++) {
